@@ -297,8 +297,23 @@ func c19Write(r *fw.R, d c19Desc) {
 	var docs [][]byte
 	for i := 0; i < d.N; i++ {
 		v := genValue(rng, 6, true)
+		if i%5 == 4 {
+			// top-level values of the types encoding/json treats specially
+			var np *c19Struct
+			specials := []any{json.RawMessage(nil), json.RawMessage(`{"a":[1,2,{"b":null}]}`), json.RawMessage(" [1, 2 ]\n"), json.RawMessage(`null`),
+				[]byte(nil), []byte("bytes"), np, &c19Struct{S: "p", Raw: json.RawMessage(`7`)}, json.Number("12.50"), map[string]json.RawMessage{"k": json.RawMessage(`"v"`)},
+				// values that cannot be encoded: Write must fail and send nothing
+				json.RawMessage(`{`), json.RawMessage(``), json.RawMessage(`1 2`), json.RawMessage(`{"a":1}{"b":2}`), make(chan int), map[string]any{"f": func() {}}, json.Number("1x")}
+			v = specials[rng.Intn(len(specials))]
+		}
 		want, err := json.Marshal(v)
 		if err != nil {
+			if werr := wsjson.Write(ctx, c, v); werr == nil {
+				r.Violate("C19/unencodable-value-written", fmt.Sprintf("%s: wsjson.Write(%T %.40q) returned nil although the value has no JSON encoding (%v)", d.Role, v, fmt.Sprint(v), err), "")
+				return
+			}
+			r.Count("unencodable_values_refused", 1)
+			r.Key("write/%s/unencodable/%T", d.Role, v)
 			continue
 		}
 		if err := wsjson.Write(ctx, c, v); err != nil {
